@@ -19,8 +19,8 @@ from vlib import refssh as R
 PROPERTY = "C12"
 LEVEL = "exploration"
 RULE = (
-    "role x unhandled message type (0..255 minus the tested side's live dispatch tables, minus kex range 20-49 "
-    "and DISCONNECT/IGNORE/DEBUG which have dedicated semantics) x random payload; quick enumerates every "
+    "role x unhandled message type (0..255 minus the tested side's live dispatch tables, "
+    "and DISCONNECT/IGNORE/DEBUG which have dedicated semantics) x random payload x optional completed re-exchange (either initiator) right before the probe; quick enumerates every "
     "(role,type) once (exhaustive over type x role) plus hypothesis-drawn multi-probe sessions; non-trivial = probe type "
     "without a debug name in paramiko.common.MSG_NAMES, or >= 3 probes in one session; distinct by (role, types, payloads)"
 )
@@ -50,8 +50,8 @@ def _session(role):
 
 def excluded_types(tested):
     # 1 DISCONNECT ends the session by design; 2 IGNORE / 4 DEBUG are consumed silently by design;
-    # 20..49 is the key-exchange range (a stray kex message is a protocol error, not "unrecognised").
-    return _handled(tested) | {1, 2, 4} | set(range(20, 50))
+    # KEXINIT/NEWKEYS are in the handler table; the rest of 20..49 has no handler once the handshake is over.
+    return _handled(tested) | {1, 2, 4}
 
 
 def probe_session(ctx, role, probes, record=True):
@@ -60,18 +60,30 @@ def probe_session(ctx, role, probes, record=True):
 
     from paramiko.common import MSG_NAMES
 
-    case = {"role": role, "probes": [[t, p] for t, p in probes]}
+    probes = [tuple(p) if len(p) == 3 else (p[0], p[1], None) for p in probes]
+    case = {"role": role, "probes": [[t, p, rk] for t, p, rk in probes]}
     link, tested, puppet = _session(role)
     try:
         excl = excluded_types(tested)
-        probes = [(t, p) for t, p in probes if t not in excl]
+        probes = [(t, p, rk) for t, p, rk in probes if t not in excl]
         if not probes:
             return True
-        nontrivial = any(t not in MSG_NAMES for t, _ in probes) or len(probes) >= 3
+        nontrivial = any(t not in MSG_NAMES for t, _, _ in probes) or len(probes) >= 3
         if record:
-            ctx.case(case, nontrivial, ["role:" + role] + ["unnamed" if t not in MSG_NAMES else "named" for t, _ in probes])
+            ctx.case(
+                case,
+                nontrivial,
+                ["role:" + role] + ["unnamed" if t not in MSG_NAMES else "named" for t, _, _ in probes] + ["rekey-before-probe:%s" % rk for _, _, rk in probes if rk],
+            )
         seen = 0
-        for t, payload in probes:
+        for t, payload, rk in probes:
+            if rk:
+                # a completed re-exchange right before the probe (strict kex: sequence numbers restart)
+                try:
+                    (puppet if rk == "puppet" else tested).renegotiate_keys()
+                except Exception as e:
+                    ctx.violation("session-continues", "%s:rekey-failed" % role, case, repr(e))
+                    return False
             s = puppet.send_raw_seq(bytes([t]) + payload)
             puppet.send_raw_seq(peers.m_global_request(SENTINEL, True))
             # wait for the sentinel's reply (REQUEST_FAILURE) or for the session to die
@@ -94,7 +106,8 @@ def probe_session(ctx, role, probes, record=True):
                 ctx.violation("session-continues", "%s:%s" % (role, bucket), case, "probe type %d: tested active=%s exception=%r replies=%r" % (t, alive, exc, [(e[0], e[1]) for e in new]))
                 return False
             idx = next(i for i, e in enumerate(new) if e[1] == 82)
-            before = new[:idx]
+            # EXT_INFO (7) is the server's unsolicited extension message after NEWKEYS, not an answer
+            before = [e for e in new[:idx] if e[1] != 7]
             seen += idx + 1
             if t == 3:
                 if before:
@@ -164,7 +177,7 @@ def run(ctx):
         if not mine:
             return
         role, ts_ = mine.pop()
-        probes = [(t, pl[i % len(pl)]) for i, t in enumerate(ts_)]
+        probes = [(t, pl[i % len(pl)], None) for i, t in enumerate(ts_)]
         probe_session(ctx, role, probes)
         covered.update((role, t) for t in ts_)
 
@@ -176,9 +189,9 @@ def run(ctx):
         ctx.note("exhaustive_over", "message type 0..255 x role (payloads sampled)")
 
     # part 2: hypothesis-drawn sessions (random order, repeated types, type 3 mixed in)
-    case_st = st.tuples(st.sampled_from(["client", "server"]), st.lists(st.tuples(st.integers(0, 255), payloads), min_size=1, max_size=6))
+    case_st = st.tuples(st.sampled_from(["client", "server"]), st.lists(st.tuples(st.integers(0, 255), payloads, st.sampled_from([None, None, None, "puppet", "tested"])), min_size=1, max_size=6))
     ctx.explore(case_st, lambda c: probe_session(ctx, c[0], c[1]), ctx.scale(60, 600), shrink=False, seed_offset=1)
 
 
 def replay(ctx, case):
-    probe_session(ctx, case["role"], [(t, p) for t, p in case["probes"]])
+    probe_session(ctx, case["role"], [tuple(p) for p in case["probes"]])
